@@ -415,6 +415,8 @@ def run_one(spec: dict) -> dict:
             w.probe("dialect_zoo")
         if run["tag"].startswith("corpus"):
             w.probe("corpus_input")
+        if run.get("xdialect"):
+            w.probe("same_text_tsql_split_then_other_dialect")
         fired_at = None
         out = []
         try:
@@ -743,6 +745,46 @@ def gen(seed, tier="quick") -> dict:
                 shared_texts.append({k: v for k, v in run.items()})
             runs.append(run)
         threads.append({"runs": runs})
+    if g.random() < 0.15:
+        # the same statement text under T-SQL split mode and under another dialect in which it reads differently (or not
+        # at all), in one process: run A is a tsql no-semicolon script containing the text - maybe failing before it
+        # gets to it -, run B is the text alone under the other dialect, later in the same thread or in another one
+        gx = stream(seed, "gen-xdialect")
+        s_ = gx.choice(sorted(BASE_META))
+        c_, c2_ = gx.choice(BASE_META[s_]), gx.choice(BASE_META[s_])
+        t_ = gx.choice(UNIVERSE)
+        text, others = gx.choice([
+            (f"SELECT {c_} AS c_x, {c2_} AS c_y INTO {t_} FROM {s_}", ["mysql", "mariadb"]),
+            (f'INSERT INTO {t_} SELECT "{c_}" AS c_q FROM {s_}', ["mysql", "sparksql", "bigquery", "hive"]),
+            (f"INSERT INTO {t_} SELECT [{c_}] AS c_b FROM {s_}", ["ansi", "mysql", "postgres"]),
+            (f"SELECT TOP 5 {c_} AS c_t INTO {t_} FROM {s_}", ["ansi", "postgres", "redshift"]),
+        ])
+        a_script = [f"INSERT INTO {gx.choice(UNIVERSE)} SELECT * FROM {gx.choice(sorted(BASE_META))}"]
+        a_faults = []
+        r_ = gx.random()
+        if r_ < 0.45:
+            a_script.append(BAD_UNSUPPORTED)
+            a_faults.append({"kind": "stmt_fail", "k": 1})
+        elif r_ < 0.6:
+            a_faults.append({"kind": "tap_raise", "event": "stmt.end", "index": 0, "exc": "InjectedFault"})
+        a_script.append(text)
+        if gx.random() < 0.4:
+            a_script.append(f"INSERT INTO {gx.choice(UNIVERSE)} SELECT * FROM {t_}")
+        ta = gx.randrange(len(threads))
+        tb = ta if gx.random() < 0.5 else gx.randrange(len(threads))
+        rid += 1
+        run_a = {"tag": f"xa{rid}", "script": a_script, "sep": "\n", "dialect": "tsql", "provider": None, "faults": a_faults if faulty or a_faults[:1] and a_faults[0]["kind"] == "stmt_fail" else [],
+                 "silent": False, "cfg": {"TSQL_NO_SEMICOLON": True}, "accessors": gx.sample(ACC_POOL, 3)}
+        if not run_a["faults"] and BAD_UNSUPPORTED in a_script:
+            run_a["faults"] = [{"kind": "stmt_fail", "k": 1}]
+        rid += 1
+        run_b = {"tag": f"xb{rid}", "script": [text], "dialect": gx.choice(others), "provider": None, "faults": [], "silent": False, "accessors": gx.sample(ACC_POOL, 3), "xdialect": True}
+        pos = gx.randrange(len(threads[ta]["runs"]) + 1)
+        threads[ta]["runs"].insert(pos, run_a)
+        if tb == ta:
+            threads[tb]["runs"].insert(gx.randrange(pos + 1, len(threads[tb]["runs"]) + 1), run_b)
+        else:
+            threads[tb]["runs"].append(run_b)
     projects = []
     if g.random() < 0.12:
         # two project directories; some runs of this world are templated scripts analysed with file_path pointing
